@@ -68,7 +68,7 @@ func checkC22(r *Run) {
 		}
 	}
 	// R2
-	id := "lookup(daemon/gnet.MessageIDReverseMap[local:msgID])"
+	id := "lookup(daemon/gnet.MessageIDReverseMap[local:[4]byte])"
 	des := "daemon/gnet.deserializeMessage($1[4:], reflect.New(" + id + "#0))"
 	reqs := []Req{
 		req("at least a message id", "4 <= len($1)"),
@@ -83,7 +83,7 @@ func checkC22(r *Run) {
 	if f := r.fn("C22-R2", "daemon/gnet.convertToMessage"); f != nil {
 		ok := false
 		for _, cs := range r.CallSites(f, "copy") {
-			if r.argTerm(cs, 0) == "local:msgID[:]" && r.argTerm(cs, 1) == "$1[:4]" {
+			if r.argTerm(cs, 0) == "local:[4]byte[:]" && r.argTerm(cs, 1) == "$1[:4]" {
 				ok = true
 			}
 		}
